@@ -191,11 +191,24 @@ def export(spec, built: Built):
         if n.stateful and any(m.trained for m in n.group if id(m) not in idx_of or idx_of[id(m)] not in visited):
             if gid_of[n.gid] not in elsewhere:
                 elsewhere.append(gid_of[n.gid])
-    # sanity of the export: `trained` as forml sees it == has a train/label subscription in the export
     head = idx_of[id(built.segment._head)]  # pylint: disable=protected-access
     tail = idx_of[id(built.segment._tail)]  # pylint: disable=protected-access
+    # members by definition (independent of Traversal.each): everything downstream of the head; beyond the tail only
+    # what is trained on its output
+    reach, todo = {head}, [head]
+    while todo:
+        i = todo.pop()
+        for subs in built.nodes[i].output:
+            for s in subs:
+                j = idx_of.get(id(s.node))
+                if j is None or j in reach:
+                    continue
+                if i == tail and not isinstance(s.port, (portmod.Train, portmod.Label)):
+                    continue
+                reach.add(j)
+                todo.append(j)
     return {'workers': workers, 'edges': edges, 'head': head, 'tail': tail, 'elsewhere': sorted(elsewhere),
-            'order': order, 'gids': {v: k for k, v in gid_of.items()}}
+            'order': order, 'gids': {v: k for k, v in gid_of.items()}, 'reach': sorted(reach)}
 
 
 # --------------------------------------------------------------------------------------------------
@@ -595,6 +608,24 @@ def gen_spec(rng, size, *, mode=None, want_assets=None, malformed=False):
     tail = add_node(gi, rng.choice([1, 1, 2, 3]), rng.choice([1, 1, 1, 0]))
     members[gi].append(tail)
     wire(tail)
+    # trainers fed by the tail's own output (the traversal follows only *trained* subscribers beyond the tail)
+    if mode == 'train' and nodes[tail]['szout'] == 1 and rng.random() < 0.35:
+        for _ in range(rng.choice([1, 1, 2])):
+            cand = [gi for gi, g in enumerate(groups) if g['stateful'] and members[gi] and gi not in trained_groups
+                    and nodes[members[gi][0]]['szin'] > 0]
+            if cand and rng.random() < 0.6:
+                gi = rng.choice(cand)
+                proto = nodes[members[gi][0]]
+                n = add_node(gi, proto['szin'], proto['szout'])
+            else:
+                gi = new_group(True)
+                if not groups[gi]['stateful']:
+                    continue
+                n = add_node(gi, rng.choice([1, 2]), 1)
+            trained_groups.add(gi)
+            feeds = [(tail, 0), rng.choice(pubs + [(tail, 0)])]
+            rng.shuffle(feeds)
+            subs.append(['t', n, feeds[0][0], feeds[0][1], feeds[1][0], feeds[1][1]])
     spec = {'groups': groups, 'nodes': nodes, 'subs': subs, 'head': head, 'tail': tail}
     if mode == 'train' and rng.random() < 0.5:
         rng.shuffle(subs)  # subscription order is independent of node creation order
@@ -615,6 +646,47 @@ def gen_spec(rng, size, *, mode=None, want_assets=None, malformed=False):
     else:
         spec['assets'] = None
     return spec
+
+
+def spec_weight(spec):
+    """Upper bound of the total size of the provenance *trees* of all tasks (terms are DAGs in memory but both sides
+    print them as trees): used to keep generated cases printable."""
+    nodes, subs = spec['nodes'], spec['subs']
+    ins = collections.defaultdict(list)
+    trainer = {}
+    for sub in subs:
+        if sub[0] == 'a':
+            ins[sub[1]].append(sub[3])
+        else:
+            ins[sub[1]] += [sub[2], sub[4]]
+            trainer[nodes[sub[1]]['group']] = sub[1]
+    memo, stack = {}, set()
+
+    def size(n):
+        if n in memo:
+            return memo[n]
+        if n in stack:
+            return 1
+        stack.add(n)
+        t = trainer.get(nodes[n]['group'])
+        r = 2 + sum(size(p) + 1 for p in ins[n]) + (size(t) if t is not None and t != n else 1)
+        stack.discard(n)
+        memo[n] = r
+        return r
+
+    return sum(size(n) for n in range(len(nodes)))
+
+
+MAX_WEIGHT = 20000
+
+
+def gen_bounded(rng, size, **kw):
+    """`gen_spec` with the printed size of the result terms bounded (deep fan-in DAGs explode as trees)."""
+    while True:
+        spec = gen_spec(rng, size, **kw)
+        if spec_weight(spec) <= MAX_WEIGHT:
+            return spec
+        size = max(3, size - 2)
 
 
 CORPUS = [
@@ -652,10 +724,18 @@ CORPUS = [
      'head': 0, 'tail': 2, 'assets': {'persistent': ['x0', 1, 0], 'prev': [True, True, False]}},
 ]
 
-MALFORMED = [
-    # single isolated worker: `Linkage.leaves` asserts
+# C01-F1: a segment of one stateless worker without any subscription (valid: acyclic, trivially connected) —
+# `Linkage.leaves` asserts a non-empty leaf set ('Not acyclic'); the persistent stateful variant compiles
+LONE = [
     {'groups': [{'actor': 0, 'stateful': False}], 'nodes': [{'group': 0, 'szin': 1, 'szout': 1}], 'subs': [],
      'head': 0, 'tail': None, 'assets': None},
+    {'groups': [{'actor': 0, 'stateful': False}], 'nodes': [{'group': 0, 'szin': 0, 'szout': 1}], 'subs': [],
+     'head': 0, 'tail': 0, 'assets': {'persistent': [], 'prev': None}},
+    {'groups': [{'actor': 0, 'stateful': True}], 'nodes': [{'group': 0, 'szin': 1, 'szout': 1}], 'subs': [],
+     'head': 0, 'tail': None, 'assets': {'persistent': [0], 'prev': [True]}},
+]
+
+MALFORMED = [
     # sub-segment whose tail has an apply subscriber outside: raw KeyError from `__iter__`
     {'groups': [{'actor': 0, 'stateful': False}, {'actor': 1, 'stateful': False}, {'actor': 2, 'stateful': False}],
      'nodes': [{'group': 0, 'szin': 0, 'szout': 1}, {'group': 1, 'szin': 1, 'szout': 1}, {'group': 2, 'szin': 1, 'szout': 1}],
@@ -789,27 +869,46 @@ class C01(fw.Check):
         for (spec, impl), ans in zip(impls, answers):
             self._compare(spec, impl, sexp.num(sexp.loads(ans)), stream)
 
+    def _mech(self, what):
+        """A mechanism-level difference between model and implementation that the property does not talk about."""
+        c = self.extra.setdefault('mechanism_level_differences', {})
+        c[what] = c.get(what, 0) + 1
+
     def _compare(self, spec, impl, m, stream):
         ex = impl['export']
         a = spec.get('assets')
         key = (repr(seg_sexp(ex)), repr(a))
         if not (isinstance(m, list) and m and m[0] == 'all'):
             raise fw.MachineryError(f'model driver rejected a case: {m!r}')
-        _, mcomp, mrun, meval, mdfs, mwf = m
+        _, mcomp, mrun, meval, mdfs, mwf, mspec = m
         nw = len(ex['workers'])
         witness = {'spec': spec}
-        # visit order
-        if mdfs[1] != ex['order']:
-            self.diverge('Traversal.each visit order', witness, ex['order'], mdfs[1])
+        # members of the segment = what Traversal.each visits; the order itself is incidental (the theorems hold for
+        # every visit order), so only the visited *set* is compared with the model's traversal
+        if sorted(mdfs[1]) != sorted(ex['order']):
+            self.diverge('Traversal.each visited set', witness, sorted(ex['order']), sorted(mdfs[1]))
+        elif mdfs[1] != ex['order']:
+            self._mech('visit order differs (same set)')
+        if stream == 'valid' and sorted(ex['order']) != ex['reach']:
+            self.violate(f'segment traversal visits {sorted(ex["order"])} but the members reachable from the head are '
+                         f'{ex["reach"]}', witness, 'segment-members')
         # ---- compile --------------------------------------------------------------------------
         if impl['stage'] == 'compile':
             cls = impl['error']
             shape = f'{stream}: compile raises {cls}'
             self.case(key, shape, nontrivial=False)
-            if mcomp[0] != 'error' or mcomp[1] != ERRMAP.get(cls, cls):
-                self.diverge('compile outcome', witness, cls, mcomp if mcomp[0] == 'error' else 'ok')
+            if mcomp[0] != 'error':
+                self.diverge('compile outcome', witness, cls, 'ok')
+            elif mcomp[1] != ERRMAP.get(cls, cls):
+                self._mech(f'exception class {cls} vs model {mcomp[1]}')
             if stream == 'valid' and impl['rank'] is not None:
-                self.violate(f'flow.compile raises {cls} on a valid segment', witness, f'compile-raises-{cls}')
+                sig = f'compile-raises-{cls}'
+                w0 = ex['workers'][0]
+                preset = bool(w0[3]) and a is not None and w0[1] in a['persistent']
+                if cls == 'AssertionError' and not ex['edges'] and len(ex['workers']) == 1 and not preset:
+                    sig += '-unlinked-single-worker'  # C01-F1: nothing else gets this signature
+                self.violate(f'flow.compile raises {cls} on a valid segment ({len(ex["workers"])} workers, '
+                             f'{len(ex["edges"])} subscriptions)', witness, sig)
             return
         if mcomp[0] != 'ok':
             self.case(key, f'{stream}: model error', nontrivial=False)
@@ -817,23 +916,32 @@ class C01(fw.Check):
             return
         itab = [(k, d, args) for k, d, args in impl['table']]
         mtab = model_table(mcomp[1])
-        try:
-            ih, mh = tree_hashes(itab), tree_hashes(mtab)
-        except Cyclic:
+        def hashes(tab):
+            try:
+                return tree_hashes(tab)
+            except Cyclic:
+                return None
+
+        ih, mh = hashes(itab), hashes(mtab)
+        if ih is None or mh is None:
             # D22: a trainer fed by an applied fork of its own group - the table is cyclic through the state argument
-            self.case(key, f'{stream}: cyclic table (D22)', nontrivial=False)
-            if sorted(map(repr, [(d, len(a)) for _, d, a in itab])) != sorted(map(repr, [(d, len(a)) for _, d, a in mtab])):
-                self.diverge('cyclic table symbols', witness, sorted(map(repr, itab)), sorted(map(repr, mtab)))
+            self.case(key, f'{stream}: cyclic table', nontrivial=False)
+            if (ih is None) != (mh is None):
+                self.diverge('cyclic compiled table', witness, 'cyclic' if ih is None else 'acyclic',
+                             'cyclic' if mh is None else 'acyclic')
+            if ih is None and stream == 'valid' and impl['rank'] is not None:
+                self.violate('the compiled table of an acyclic segment is cyclic (executing it never terminates)', witness,
+                             'run-raises-Cyclic')
             return
         isyms = sorted(ih[k] for k, _, _ in itab)
         msyms = sorted(mh[k] for k, _, _ in mtab)
         if isyms != msyms:
-            self.diverge('symbol table (structural)', witness,
-                         sorted(repr((d, len(args))) for _, d, args in itab), sorted(repr((d, len(args))) for _, d, args in mtab))
+            # mechanism level only (e.g. an un-pruned stub getter): not what the property talks about, recorded as data
+            self._mech('symbol table structure differs')
         # ---- run ------------------------------------------------------------------------------
-        mvals = {repr(k): v for k, v in mrun[1]} if mrun != 'skip' else {}
-        model_raised = any(has_error(v) for v in mvals.values())
-        if mrun != 'skip' and mrun[4] != 'true':
+        mvals = {repr(k): v for k, v in mrun[1]} if mrun not in ('skip', 'cyclic') else {}
+        model_raised = mrun == 'cyclic' or any(has_error(v) for v in mvals.values())
+        if mrun not in ('skip', 'cyclic') and mrun[4] != 'true':
             self.diverge('model: memoising run disagrees with Table.value / not once', witness, None, mrun[4])
         kinds = collections.Counter(impl['kinds'])
         shape = (f'{stream}: w={min(nw, 9) if nw < 9 else "9+"} getters={"y" if kinds["getter"] else "n"} '
@@ -852,11 +960,23 @@ class C01(fw.Check):
                           'symbols': [d for _, d, _ in itab][:12]})
         if model_raised:
             self.diverge('run outcome', witness, 'ok', 'error value')
-        ivals = sorted(repr((ih[k], impl['values'][k])) for k, _, _ in itab)
-        mvs = sorted(repr((mh[k], mvals.get(k))) for k, _, _ in mtab)
-        if ivals != mvs and isyms == msyms:
+        # behaviour compared with the model: value of every task (functor), the committed generation, the dumped states
+        ivals = sorted(repr(impl['values'][k]) for k, d, _ in itab if d[0] == 'functor')
+        mvs = sorted(repr(mvals.get(k)) for k, d, _ in mtab if d[0] == 'functor')
+        if ivals != mvs:
             diff = [x for x in ivals if x not in mvs][:2], [x for x in mvs if x not in ivals][:2]
-            self.diverge('values of the symbols', witness, diff[0], diff[1])
+            self.diverge('values of the tasks', witness, diff[0], diff[1])
+        mcommit = [v[1] for k, v in mvals.items() if isinstance(v, list) and v and v[0] == 'committed']
+        if impl['commits'] != mcommit:
+            self.diverge('committed generation', witness, impl['commits'], mcommit)
+        mdumps = sorted(repr(v[1]) for k, v in mvals.items() if isinstance(v, list) and v and v[0] == 'dumped')
+        if sorted(map(repr, impl['dumps'])) != mdumps:
+            self.diverge('dumped states', witness, sorted(map(repr, impl['dumps'])), mdumps)
+        if isyms == msyms:
+            iv = sorted(repr((ih[k], impl['values'][k])) for k, _, _ in itab)
+            mv = sorted(repr((mh[k], mvals.get(k))) for k, _, _ in mtab)
+            if iv != mv:
+                self._mech('values of non-task symbols differ')
         if not impl['once']:
             self.diverge('harness interpreter executed an instruction more than once', witness, None, None)
         # ---- oracle on the real code -----------------------------------------------------------
@@ -866,6 +986,9 @@ class C01(fw.Check):
         except Cyclic:
             return
         # Lean evalGraph == Python evalGraph (the two spec twins)
+        if meval == 'cyclic':
+            self.diverge('evalGraph: Lean spec calls the graph cyclic, the Python oracle does not', witness, 'acyclic', meval)
+            return
         lvals = {u: v for u, v in meval[1]}
         if any(lvals.get(u) != v for u, v in ovals.items()):
             bad = next(u for u, v in ovals.items() if lvals.get(u) != v)
@@ -878,6 +1001,9 @@ class C01(fw.Check):
             self.diverge('evalGraph commit: Lean spec vs Python oracle', witness, None, lcommit)
         if valid and mwf[1:] != ['true', 'true']:
             self.diverge('generated valid segment does not satisfy the Lean WF / assetsOK predicate', witness, 'valid', mwf)
+        if valid and mspec[0] != 'true':
+            self.diverge('model: compiled table differs from the table denoted by the segment (specTable)', witness,
+                         'describes', mspec)
         if not valid:
             return
         functor_vals = sorted(repr(impl['values'][k]) for k, d, _ in itab if d[0] == 'functor')
@@ -916,15 +1042,16 @@ class C01(fw.Check):
         rng = self.rng
         sys.unraisablehook = _quiet_unraisable
         self._batch(CORPUS, 'valid')
+        self._batch(LONE, 'valid')
         self._batch(MALFORMED, 'malformed')
         specs = []
         for _ in range(self.n(400, 5000)):
             hi = 12 if self.quick else 25
             size = rng.choice([2, 3, 3, 4, 5, 6, 8, 10, hi])
-            specs.append(gen_spec(rng, size))
+            specs.append(gen_bounded(rng, size))
         for chunk in range(0, len(specs), 500):
             self._batch(specs[chunk:chunk + 500], 'valid')
-        mal = [gen_spec(rng, rng.choice([3, 4, 6, 9]), mode='train', want_assets=True, malformed=True)
+        mal = [gen_bounded(rng, rng.choice([3, 4, 6, 9]), mode='train', want_assets=True, malformed=True)
                for _ in range(self.n(60, 600))]
         self._batch(mal, 'malformed')
         if not self.quick:
@@ -938,18 +1065,27 @@ class C01(fw.Check):
         self._selftest()
 
     def _selftest(self):
-        """Planted divergence: the model is asked to compile with a wrong visit order element / dropped edge."""
+        """Planted divergence (model and comparison code only, independent of the implementation): the DESIGN shape
+        compiled by the model with its label subscriptions dropped must not compare equal to the intact one."""
         spec = CORPUS[2]
-        impl = run_impl(spec)
-        ex = impl['export']
-        bad = dict(ex, edges=[e for e in ex['edges'] if e[3] != 'l'])
-        ans = self.model([sexp.dumps(['compile', seg_sexp(bad), assets_sexp(spec['assets'], len(spec['groups'])), ex['order']])])
-        m = sexp.num(sexp.loads(ans[0]))
-        if m[0] == 'ok':
-            mh = tree_hashes(model_table(m[1]))
-            ih = tree_hashes(impl['table'])
-            if sorted(mh.values()) == sorted(ih.values()):
-                raise fw.MachineryError('planted divergence (dropped label edge) was not detected by the table comparison')
+        ws = [[i, nd['group'], spec['groups'][nd['group']]['actor'], spec['groups'][nd['group']]['stateful'], nd['szin'],
+               nd['szout']] for i, nd in enumerate(spec['nodes'])]
+        es = []
+        for sub in spec['subs']:
+            if sub[0] == 'a':
+                es.append([sub[3], sub[4], sub[1], 'a', sub[2]])
+            else:
+                es += [[sub[2], sub[3], sub[1], 't', 0], [sub[4], sub[5], sub[1], 'l', 1]]
+        good = {'workers': ws, 'edges': es, 'head': 0, 'tail': 7, 'elsewhere': []}
+        bad = dict(good, edges=[e for e in es if e[3] != 'l'])
+        order = list(range(len(ws)))
+        assets = assets_sexp(spec['assets'], len(spec['groups']))
+        ans = self.model([sexp.dumps(['compile', seg_sexp(x), assets, order]) for x in (good, bad)])
+        mg, mb = (sexp.num(sexp.loads(a)) for a in ans)
+        if mg[0] != 'ok':
+            raise fw.MachineryError(f'self-test: the model does not compile the DESIGN shape: {mg!r}')
+        if mb[0] == 'ok' and sorted(tree_hashes(model_table(mb[1])).values()) == sorted(tree_hashes(model_table(mg[1])).values()):
+            raise fw.MachineryError('planted divergence (dropped label edges) was not detected by the table comparison')
         self.notes.append('planted-divergence self-test: detected')
 
     # ---- failing-input search -----------------------------------------------------------------
@@ -965,7 +1101,7 @@ class C01(fw.Check):
             if len(self.violations) > before:
                 break
         if len(self.violations) == before:
-            specs = [gen_spec(self.rng, self.rng.choice([3, 4, 5, 6, 8, 12, 20])) for _ in range(self.n(1500, 6000))]
+            specs = [gen_bounded(self.rng, self.rng.choice([3, 4, 5, 6, 8, 12, 20])) for _ in range(self.n(1500, 6000))]
             for chunk in range(0, len(specs), 500):
                 self._batch(specs[chunk:chunk + 500], 'valid')
                 n += 500
@@ -1018,7 +1154,7 @@ class C01(fw.Check):
         return got[0] if got else None
 
 
-_FAKE_ALL = '(all (ok ()) skip (ok () none) (ok ()) (ok true true))'
+_FAKE_ALL = '(all (ok ()) skip (ok () none) (ok ()) (ok true true) (true true))'
 
 
 def _smaller(spec):
